@@ -64,21 +64,49 @@ class Theme:
     def val(self, slot, r):
         if r == NONE:
             return None
+        if slot == "time" and r >= self.NOW_BASE:
+            return {rr: v for v, rr in self.__dict__.get("dynamic", {}).items()}[r]
         return self._unrank[slot][r]
+
+    NOW_BASE = 1000
 
     def rank(self, slot, v):
         if v is None:
             return NONE
         if slot == "time" and isinstance(v, datetime) and v.tzinfo is not None:
             v = v.astimezone(timezone.utc)
+        if slot == "time" and v not in self._rank["time"]:
+            # "insertion time" stamps: named by ranks >= NOW_BASE in the order they appear; a stamp is
+            # only accepted inside the window of the call that produced it
+            dyn = self.__dict__.setdefault("dynamic", {})
+            if v in dyn:
+                return dyn[v]
+            win = self.__dict__.get("window")
+            if win and win[0] <= v <= win[1]:
+                dyn[v] = self.NOW_BASE + len(dyn)
+                return dyn[v]
         return self._rank[slot][v]          # KeyError = value unknown to the theme (a divergence)
 
     OFFSETS = [0, -480, 330, -210, 600, 0, 45, -570]      # minutes east of UTC
 
-    def zoned(self, r, salt=0):
-        """the instant of rank r expressed in some other UTC offset (same instant)"""
+    naive_inputs = False
+
+    def zoned(self, r, salt=0, allow_naive=True):
+        """the instant of rank r expressed in some other UTC offset - or, for themes that allow it,
+        as a naive local datetime when that names the same instant (same instant either way)"""
+        if r >= self.NOW_BASE:
+            return {rr: v for v, rr in self.__dict__.get("dynamic", {}).items()}[r]
         dt = self._unrank["time"][r]
-        off = self.OFFSETS[(r * 7 + salt * 3) % len(self.OFFSETS)]
+        pick = (r * 7 + salt * 3) % (len(self.OFFSETS) + (3 if (self.naive_inputs and allow_naive) else 0))
+        if pick >= len(self.OFFSETS):
+            local = dt.astimezone().replace(tzinfo=None)
+            try:
+                if local.astimezone(timezone.utc) == dt:       # the documented rule for naive values
+                    return local
+            except (OverflowError, OSError, ValueError):
+                pass
+            return dt
+        off = self.OFFSETS[pick]
         return dt.astimezone(timezone(timedelta(minutes=off))) if off else dt
 
     def key(self, slot, k):
@@ -88,10 +116,25 @@ class Theme:
         return (self.tagkeys if slot == "tag" else self.fieldkeys).index(name) + 1
 
     # ---- points --------------------------------------------------------------
+    def point_utc(self, tf, ap):
+        """abstract point -> Point as the database holds it (time already an aware UTC datetime)"""
+        p = self.point(tf, ap)
+        p.time = self.val("time", ap["t"])
+        return p
+
     def point(self, tf, ap):
         """abstract point {"t","m","tg","fd"} -> fresh tinyflux.Point"""
         tags = {self.tagkeys[i]: self.val("tag", v) for i, v in enumerate(ap["tg"]) if v != MISSING}
         fields = {self.fieldkeys[i]: self.val("field", v) for i, v in enumerate(ap["fd"]) if v != MISSING}
+        if ap["t"] == -5:                       # a point without a time
+            p = tf.Point()
+            p.measurement = self.val("meas", ap["m"])
+            p.tags = tags
+            p.fields = fields
+            return p
+        if ap["t"] >= self.NOW_BASE:            # a stamp handed out earlier in this trace
+            inv = {r: v for v, r in self.__dict__.get("dynamic", {}).items()}
+            return tf.Point(time=inv[ap["t"]], measurement=self.val("meas", ap["m"]), tags=tags, fields=fields)
         return tf.Point(time=self.zoned(ap["t"], ap["m"]), measurement=self.val("meas", ap["m"]), tags=tags, fields=fields)
 
     def abstract_point(self, p, ntk, nfk):
@@ -101,6 +144,8 @@ class Theme:
             tg[self.keyidx("tag", k) - 1] = self.rank("tag", v)
         for k, v in p.fields.items():
             fd[self.keyidx("field", k) - 1] = self.rank("field", v)
+        if p.time.tzinfo is None or p.time.utcoffset() != timedelta(0):
+            raise ThemeError("returned time is not an aware UTC datetime: %r" % (p.time,))
         return {"t": self.rank("time", p.time), "m": self.rank("meas", p.measurement), "tg": tg, "fd": fd}
 
     # ---- user callables realising the spec's function tables ---------------------
@@ -168,7 +213,7 @@ class Theme:
             base = base.map(self._cached(cache, ("map", k, q["mf"]), lambda: self.mapfn(k, q["mf"])))
         v = q["v"]
         if k == "time" and op in ("eq", "ne", "lt", "le", "gt", "ge") and v >= 0:
-            rhs = self.zoned(v, 1)               # comparison value in another zone, same instant
+            rhs = self.zoned(v, 1, allow_naive=False)   # comparison value in another zone, same instant (never naive)
             return {"eq": base.__eq__, "ne": base.__ne__, "lt": base.__lt__, "le": base.__le__,
                     "gt": base.__gt__, "ge": base.__ge__}[op](rhs)
         if op == "eq":
